@@ -50,6 +50,20 @@ fn reported_finished_by(side: &Side, vt: u64) -> bool {
     side.inds.iter().any(|i| i.vt <= vt && matches!(&i.ind, Indication::Finished(_) | Indication::Abandon(_)))
 }
 
+/// the cancel took effect before either side had reported the transaction finished (the reporting
+/// clauses are judged only then)
+fn cancel_before_any_finish(side: &Side, peer_side: &Side, c: &Cancel) -> bool {
+    let own_earlier = side.inds.iter().any(|i| {
+        i.vt <= c.vt
+            && match &i.ind {
+                Indication::Finished(f) => !(i.vt == c.vt && i.seq > c.seq && f.report.condition == Condition::CancelReceived),
+                Indication::Abandon(f) => !(i.vt == c.vt && i.seq > c.seq && f.condition == Condition::CancelReceived),
+                _ => false,
+            }
+    });
+    !own_earlier && !reported_finished_by(peer_side, c.vt)
+}
+
 fn cancel_condition_after(side: &Side, seq: u64) -> bool {
     side.inds.iter().filter(|i| i.seq > seq).any(|i| match &i.ind {
         Indication::Finished(f) => f.report.condition == Condition::CancelReceived,
@@ -103,15 +117,7 @@ pub fn c10(a: &Analysis) -> Vec<Violation> {
             // (at the cancelling side a Finished / Abandon indication that carries the cancel
             // condition at the instant of the request is the request's own effect - a receiver
             // reports its cancel at once -, not a report that preceded it)
-            let own_earlier = side.inds.iter().any(|i| {
-                i.vt <= c.vt
-                    && match &i.ind {
-                        Indication::Finished(f) => !(i.vt == c.vt && i.seq > c.seq && f.report.condition == Condition::CancelReceived),
-                        Indication::Abandon(f) => !(i.vt == c.vt && i.seq > c.seq && f.condition == Condition::CancelReceived),
-                        _ => false,
-                    }
-            });
-            let before_any_finish = !own_earlier && !reported_finished_by(peer_side, c.vt);
+            let before_any_finish = cancel_before_any_finish(side, peer_side, c);
             if !before_any_finish {
                 continue;
             }
@@ -394,6 +400,23 @@ fn probes(a: &Analysis, out: &mut Vec<&'static str>) {
         }
         if d < a.rec.sc.ents.len() && effective_cancel(a, t, &t.at_dst, d).is_some() {
             out.push("cancel_took_effect_at_receiver");
+        }
+        // how often the reporting clauses are really judged (a guard that is always false is a
+        // blind spot: it was one for cancels at the receiver until the third round of seeded changes)
+        let no_susp = !a.rec.sc.script.iter().any(|e| matches!(e, Entry::User { op: UserOp::Suspend, .. }) || matches!(e, Entry::ClockJump { .. } | Entry::Stall { .. }));
+        if no_susp {
+            if let Some(c) = effective_cancel(a, t, &t.at_src, t.src_ent) {
+                if cancel_before_any_finish(&t.at_src, &t.at_dst, &c) {
+                    out.push("reporting_clauses_judged_for_a_cancel_at_the_sender");
+                }
+            }
+            if d < a.rec.sc.ents.len() {
+                if let Some(c) = effective_cancel(a, t, &t.at_dst, d) {
+                    if cancel_before_any_finish(&t.at_dst, &t.at_src, &c) {
+                        out.push("reporting_clauses_judged_for_a_cancel_at_the_receiver");
+                    }
+                }
+            }
         }
         if t.at_dst.finished().iter().any(|(_, f)| is_success(f)) && (effective_cancel(a, t, &t.at_src, t.src_ent).is_some() || effective_cancel(a, t, &t.at_dst, d).is_some()) {
             out.push("cancel_raced_with_completion");
